@@ -236,3 +236,105 @@ PROPERTIES["C20"] = {
     "prepare": _c20_prepare,
     "runs": _c20_runs,
 }
+
+
+# ---------------------------------------------------------------- stage 1: generated Go code (C08, C09, C13)
+
+GEN_PIPELINE = """debug: false
+inputs:
+  - jsonschema:
+      path: '%(verif)s/corpus/c08/constraints.json'
+      package: constraints
+  - cue:
+      entrypoint: '%(repo)s/testdata/schemas/validation'
+  - cue:
+      entrypoint: '%(repo)s/testdata/schemas/equality'
+  - cue:
+      entrypoint: '%(repo)s/testdata/schemas/defaults'
+output:
+  directory: '%(out)s'
+  types: true
+  builders: true
+  languages:
+    - go:
+        package_root: 'verifgen'
+        generate_json_marshaller: true
+        generate_strict_unmarshaller: true
+        generate_equal: true
+        generate_validate: true
+"""
+
+def _gen_prepare(tmp, tier):
+    """Stage 1: build cog's CLI from /repo's current tree and let the REAL generator emit Go code for the corpus."""
+    import subprocess
+    drv = _drv
+    cog = os.path.join(tmp, "cog")
+    drv.sh(["go", "build", "-o", cog, "./cmd/cli"], cwd=drv.REPO)
+    out = os.path.join(tmp, "gen")
+    cfg = os.path.join(tmp, "pipeline.yaml")
+    open(cfg, "w").write(GEN_PIPELINE % {"verif": drv.VERIF, "repo": drv.REPO, "out": out})
+    drv.sh([cog, "generate", "--config", cfg], cwd=tmp)
+    open(os.path.join(out, "go.mod"), "w").write("module verifgen\n\ngo 1.23\n")
+    drv.sh(["go", "build", "./..."], cwd=out)   # a corpus entry whose output does not type-check is C02's subject
+    return {"gen": out}
+
+def _gen_run(ctx, name, pkg, files, entries, **kw):
+    harness = {}
+    for virt, real in files:
+        harness[virt] = real
+    return Run(name, ["./" + pkg], harness, entries, pkg, module_dir=ctx["gen"], undertest="verifgen", module_path="verifgen", **kw)
+
+def _c08_runs(ctx):
+    return [_gen_run(ctx, "constraints", "constraints", [("constraints/zz_verif_c08.go", "harness/gen/constraints/zz_verif_c08.go")], ["VerifC08Validate"]),
+            _gen_run(ctx, "validation", "validation", [("validation/zz_verif_c08.go", "harness/gen/validation/zz_verif_c08.go")], ["VerifC08ValidateDashboard"])]
+
+PROPERTIES["C08"] = {
+    "level_text": "Two-stage, bounded symbolic execution + SMT. Stage 1 (concrete): cog's CLI is built from /repo's current tree and the REAL generator emits Go types for the corpus. "
+                  "Stage 2 (symbolic): the emitted Validate() methods are executed symbolically on an arbitrary value (ints = bit-vectors of the Go width, the float an IEEE double, strings "
+                  "abstract with symbolic rune/byte length, optional pointers and collection lengths forked, map keys over a small alphabet); the solver decides that an error is returned "
+                  "iff the oracle written from the source schema says a constraint is violated, and that exactly the offending paths are reported.",
+    "level_note": "The schema dimension is a finite corpus (corpus/c08/constraints.json: constraints on field, optional field, array item, map value, referenced struct, optional reference, "
+                  "array/map of references, nested anonymous struct; plus the repository's validation.cue); the value dimension is decided by the solver. Collections <= 2 entries. "
+                  "The strict decoder half of the property (encoding/json leaf decoding) is outside the claim so far.",
+    "bounds": {"corpus": ["corpus/c08/constraints.json (Root, Child, inner struct)", "testdata/schemas/validation/validation.cue"], "collections": "<=2 entries", "ints": "full 64-bit range", "strings": "abstract: any string (rune/byte lengths symbolic)"},
+    "prepare": _gen_prepare,
+    "runs": _c08_runs,
+}
+
+
+def _c13_prepare(tmp, tier):
+    import subprocess
+    drv = _drv
+    ctx = _gen_prepare(tmp, tier)
+    hdir = os.path.join(tmp, "c13h")
+    os.makedirs(hdir, exist_ok=True)
+    lst = os.path.join(tmp, "c13_entries.txt")
+    subprocess.run([os.path.join(drv.BUILD, "symgo"), "-dir", ctx["gen"], "-gen-equals", hdir, "-gen-list", lst, "-modpath", "verifgen",
+                    "-pkgs", "./equality,./constraints,./validation,./defaults"], check=True, env=drv.ENV)
+    ctx["c13h"] = hdir
+    ctx["c13"] = {}
+    for l in open(lst):
+        l = l.strip()
+        if l:
+            pkg, entry = l.split(":")
+            ctx["c13"].setdefault(pkg, []).append(entry)
+    return ctx
+
+def _c13_runs(ctx):
+    runs = []
+    for pkg, entries in sorted(ctx["c13"].items()):
+        runs.append(_gen_run(ctx, "equals_" + pkg, pkg, [(pkg + "/zz_verif_c13_gen.go", os.path.join(ctx["c13h"], "zz_verif_c13_%s.go" % pkg))], entries))
+    return runs
+
+PROPERTIES["C13"] = {
+    "level_text": "Two-stage, bounded symbolic execution + SMT. Stage 1: the REAL generator (cog built from /repo's current tree) emits Go types with Equals for the corpus. Stage 2: for "
+                  "EVERY generated type that has an Equals method (list read from go/types on this run) arbitrary values a, b, c are built from the declared fields (leaves solver "
+                  "variables; shapes: all three fully populated, or two values with at most one optional/collection position populated each, or sparse vs full) and the solver decides "
+                  "reflexivity, symmetry, transitivity and a.Equals(b) <=> structural equality with nil and empty collections identified (the equality of the JSON encodings).",
+    "level_note": "Schema dimension: finite corpus (testdata/schemas/equality: nested arrays/maps of references, optional scalars, enums, any fields, anonymous structs; validation; "
+                  "defaults; corpus/c08). Value dimension: solver. Bounds: 2/3 indirections, collections of 1 entry (2 in sparse positions), strings over {'',a,b}, ints [0,3], any over "
+                  "{string,float64,bool,[]any,map[string]any}. JSON equality is replaced by structural equality (fields are distinctly tagged, encoding/json is injective on these types up to nil-vs-empty).",
+    "bounds": {"corpus": "testdata/schemas/{equality,validation,defaults} + corpus/c08/constraints.json", "values": "depth 2 (quick) / 3 (thorough), three shape families"},
+    "prepare": _c13_prepare,
+    "runs": _c13_runs,
+}
